@@ -550,19 +550,19 @@ impl LuaIndex for LuaTypeIndex {
                     }
                 }
 
-                if let Some(supers) = self.supers.get_mut(&id) {
-                    supers.retain(|s| s.file_id != file_id);
-                    if supers.is_empty() {
-                        self.supers.remove(&id);
-                    }
-                }
-
                 if remove_type {
                     self.remove_type_decl_name(&id);
                     self.generic_params.remove(&id);
                 }
             }
         }
+
+        // a file can add super types to a type it does not declare itself (a class reached through
+        // `---@using`), so the super lists of all types are filtered, not only those of `file_types`
+        self.supers.retain(|_, supers| {
+            supers.retain(|s| s.file_id != file_id);
+            !supers.is_empty()
+        });
 
         if let Some(type_owners) = self.in_filed_type_owner.remove(&file_id) {
             for type_owner in type_owners {
